@@ -1918,6 +1918,8 @@ class Rule(metaclass=LogicalType):
                         f"prefixItems required prefix: [{i}] not provided", item=i
                     )
                 )
+                # when errors are collected there is still no item at this position to parse
+                continue
 
             with context.enter(route=i) as arg_context:
                 try:
